@@ -87,6 +87,41 @@ class PathRules:
                     return True
         return False
 
+    def private_helper(self, hb):
+        return hb is not None and bool(hb.impl) and hb.impl["trait"] is None and hb.impl["self_ty"] == self.w.path_ty and hb.vis != "pub"
+
+    def through_helpers(self, t):
+        """normalised term with calls of private helpers of the path type replaced by what they return, and
+        projections of the tuples they return resolved"""
+        t = norm(self.inter.inline_ret(t, depth=2, pred=self.private_helper))
+
+        def simp(x):
+            if not isinstance(x, tuple):
+                return x
+            x = tuple(simp(y) for y in x)
+            if x and x[0] == "field" and len(x) == 3 and isinstance(x[1], tuple):
+                inner = x[1]
+                while inner and inner[0] in ("okval", "await"):
+                    inner = inner[1]
+                if inner and inner[0] == "tuple" and str(x[2]).isdigit() and int(x[2]) < len(inner[1]):
+                    return inner[1][int(x[2])]
+            return x
+        return simp(t)
+
+    def passthrough_helpers(self, name):
+        """private helpers of the path type that method `name` calls with (self, destination) passed straight through:
+        inside them argument 0/1 still mean the receiver / the destination"""
+        b, cbs = self.bodies(name)
+        out = []
+        for cb in cbs:
+            tr = get_tracer(self.facts, cb)
+            for s in self.inter.sites(cb):
+                hb = self.inter.local_callee(s)
+                if self.private_helper(hb) and hb.id != b.id and len(s.args) >= 2 and \
+                        self.is_arg(tr.operand(s.args[0]), 0) and self.is_arg(tr.operand(s.args[1]), 1):
+                    out.extend(self.inter.code_bodies(hb))
+        return out
+
     def parent_of_self(self, t):
         t = norm(t)
         return t[0] == "call" and sname(t[1]) == "parent" and t[2] and self.is_arg(t[2][0], 0)
@@ -144,10 +179,14 @@ class PathRules:
             # stream route: nothing is created at the destination before the source has been opened successfully
             # (a source that is missing / a directory must fail the call with the destination untouched)
             if name in ("copy_file", "move_file"):
-                for cb, s in self.sites(name, lambda s: sname(s.path) == "create_file" and s.self_ty and s.self_ty.endswith("VfsPath")):
+                cf = lambda s: sname(s.path) == "create_file" and s.self_ty and s.self_ty.endswith("VfsPath")
+                hsites = [(hcb, s) for hcb in self.passthrough_helpers(name) for s in self.inter.sites(hcb) if cf(s)]
+                nfound = 0
+                for cb, s in self.sites(name, cf) + hsites:
                     trc = get_tracer(self.facts, cb)
                     if not (s.args and self.is_arg(trc.operand(s.args[0]), 1)):
                         continue
+                    nfound += 1
                     gs = self.guards(cb, s.bb)
                     ok = any(g[0] == "variant" and g[2] == "ok" and peel(g[1])[0] == "call" and sname(peel(g[1])[1]) == "open_file" and
                              peel(g[1])[2] and self.is_arg(peel(g[1])[2][0], 0) for g in gs)
@@ -157,6 +196,10 @@ class PathRules:
                            "destination.create_file() runs before self.open_file() has succeeded: a copy/move whose source is missing "
                            "or is a directory fails but leaves an empty file at the destination (through OverlayFS::append_file's "
                            "copy-up: a lower-layer directory is shadowed by an empty file)", s.line)
+                if not nfound:
+                    n += 1
+                    rep.fail(rule, b.id, "%s: destination.create_file() site present" % name,
+                             "the stream route's creation of the destination was not found (moved where the ordering rule cannot see it)", b.span)
             # the refusal builds an error
             ss = self.sites(name, lambda s: sname(s.path) == "exists")
             has_refusal = False
@@ -300,8 +343,8 @@ class PathRules:
                 tr = get_tracer(self.facts, cb)
                 for s in self.inter.sites(cb):
                     if sname(s.path) == "copy" and s.path.endswith("io::copy"):
-                        r = norm(tr.operand(s.args[0]))
-                        wri = norm(tr.operand(s.args[1]))
+                        r = self.through_helpers(tr.operand(s.args[0]))
+                        wri = self.through_helpers(tr.operand(s.args[1]))
                         rsrc = peel(r)
                         wsrc = peel(wri)
                         okr = rsrc[0] == "call" and sname(rsrc[1]) == "open_file" and rsrc[2] and self.is_arg(rsrc[2][0], 0)
